@@ -111,6 +111,10 @@ def plan(tier, seed):
     sh.append({"kind": "solo", "tier": tier, "_name": "solo"})
     for i in range(sz["cold"]):
         sh.append({"kind": "cold", "part": i, "tier": tier, "_name": f"cold-{i}"})
+    trials = coldsched_trials(p, tier)
+    per = 3 if tier == "quick" else 4
+    for i in range(0, len(trials), per):
+        sh.append({"kind": "coldsched", "trials": trials[i : i + per], "tier": tier, "_name": f"coldsched-{i // per}"})
     for s_ in sh:
         s_["pool_file"] = pf
     sh[0]["_cleanup"] = [pf]
@@ -283,10 +287,34 @@ def run_stress(shard, mon, S, p):
 COLD_FNS = ("bic", "iban", "from_bank_code", "iban_lookup", "random", "generate", "bic_lookup", "candidates", "algo")
 
 
+LOOKUP_FNS = ("from_bank_code", "candidates", "iban_lookup", "bic_lookup")
+
+
 def cold_ids(p, part):
+    """Eight first calls, mostly ones that touch lazily initialised / indexed state (registry look-ups,
+    German bank dispatch, registry-based random draws, pycountry)."""
     rng = env.rng("C14", "cold", part)
-    fam = [i for i, d in enumerate(p) if d["fn"] in COLD_FNS]
-    return rng.sample(fam, 8)
+    look = [i for i, d in enumerate(p) if d["fn"] in LOOKUP_FNS]
+    api = [i for i, d in enumerate(p) if d.get("grp", "").startswith(("api:DE", "listed:"))]
+    rnd = [i for i, d in enumerate(p) if d["fn"] == "random" and d.get("use_registry")]
+    other = [i for i, d in enumerate(p) if d["fn"] in ("bic", "generate", "algo")]
+    return rng.sample(look, 4) + rng.sample(api, 2) + rng.sample(rnd, 1) + rng.sample(other, 1)
+
+
+COLD_K = [1, 2, 3, 5, 8, 13, 21, 34, 55, 89, 144, 233, 377, 610, 987, 1597, 2584, 4181, 6765, 10946, 17711, 28657, 46368, 75025, 121393, 196418]
+
+
+def coldsched_trials(p, tier):
+    """(first call a, second call b, K): in a fresh process a is preempted after K package lines of its
+    very first execution, b runs to completion, then a resumes."""
+    rng = env.rng("C14", "coldsched")
+    look = [i for i, d in enumerate(p) if d["fn"] in LOOKUP_FNS]
+    api = [i for i, d in enumerate(p) if d.get("grp", "").startswith(("api:DE", "listed:")) and d["fn"] in ("iban", "iban_lookup")]
+    pairs = [(rng.choice(look), rng.choice(api)), (rng.choice(api), rng.choice(look)), (rng.choice(look), rng.choice(look))]
+    if tier != "quick":
+        pairs += [(rng.choice(look + api), rng.choice(look + api)) for _ in range(9)]
+    ks = COLD_K if tier != "quick" else COLD_K[::2] + [121393]
+    return [(a, b, k) for a, b in pairs for k in ks]
 
 
 def run_cold(shard, mon, S, p):
@@ -321,9 +349,58 @@ def run_cold(shard, mon, S, p):
     mon.sample({"cold_start_calls": [p[i] for i in ids[:3]]})
 
 
+def run_coldsched(shard, mon, S, p):
+    """Each trial needs a process in which the library was imported but never used: the shard spawns one
+    child interpreter per trial (subprocess.run with a time-out)."""
+    import subprocess  # noqa: PLC0415
+
+    outcomes = {}
+    for a, b, k in shard["trials"]:
+        code = (
+            "import sys, json\n"
+            "from vf import env, calls, judge\n"
+            "from vf.mon.sched import Scheduler\n"
+            "S = judge.lib()\n"
+            "p = json.load(open(sys.argv[1]))\n"
+            "a, b, k = int(sys.argv[2]), int(sys.argv[3]), int(sys.argv[4])\n"
+            "s = Scheduler(env.PKG, 'line'); s.install()\n"
+            "r = s.run([lambda: calls.execute(S, p[a]), lambda: calls.execute(S, p[b])], first=0, preempt={(0, k)}, timeout=120)\n"
+            "s.uninstall()\n"
+            "print(json.dumps({'results': r['results'], 'steps': r['steps'], 'degraded': r['degraded'], 'hung': r['hung']}))\n"
+        )
+        e = dict(os.environ, PYTHONPATH=env.VERIF, PYTHONHASHSEED="0", PYTHONDONTWRITEBYTECODE="1")
+        try:
+            pr = subprocess.run([env.PY, "-c", code, shard["pool_file"], str(a), str(b), str(k)], env=e, capture_output=True, text=True, timeout=300)
+            doc = json.loads(pr.stdout.strip().splitlines()[-1])
+        except Exception as ex:  # noqa: BLE001
+            mon.inconclusive.append(f"cold scheduled trial did not finish: {ex!r}"[:200])
+            continue
+        mon.ev()
+        mon.distinct(("coldsched", a, b, k))
+        mon.tally("cold_scheduled_trials")
+        if doc["steps"][0] >= k:
+            mon.tally("cold_scheduled_trials_preempted")
+        if doc["hung"]:
+            mon.inconclusive.append("cold scheduled trial hung")
+            continue
+        for w_, i in enumerate((a, b)):
+            out = doc["results"][w_]
+            key = str(i)
+            dg = calls.digest(out)
+            prev = outcomes.get(key)
+            if prev is not None and prev[0] != dg:
+                mon.viol(f"cold_start_outcome_differs:{p[i]['fn']}", {"descriptor": p[i], "trial": [p[a], p[b], k]}, prev[1], json.dumps(out, default=str)[:300])
+            outcomes[key] = [dg, json.dumps(out, default=str)[:300]]
+            # per-trial record for the cross-process comparison in finish()
+            mon.notes.setdefault("outcome_list", []).append([key, dg, json.dumps(out, default=str)[:200], f"{shard['_name']}:k={k}"])
+    if shard["trials"]:
+        a, b, k = shard["trials"][0]
+        mon.sample({"cold_scheduled_trial": {"first_call": p[a], "second_call": p[b], "preempt_first_after_lines": k}})
+
+
 def run_solo(shard, mon, S, p):
     sz = SIZES[shard["tier"]]
-    ids = sorted({i for k in range(sz["cold"]) for i in cold_ids(p, k)})
+    ids = sorted({i for k in range(sz["cold"]) for i in cold_ids(p, k)} | {i for a, b, _ in coldsched_trials(p, shard["tier"]) for i in (a, b)})
     outs = {i: calls.execute(S, p[i]) for i in ids}
     mon.ev(len(ids))
     mon.distinct(("solo", len(ids)))
@@ -335,7 +412,7 @@ def run_shard(shard, out_base):
     mon = Mon("C14")
     S = judge.lib()
     p = the_pool(shard["tier"], shard.get("pool_file"))
-    {"explore": run_explore, "stress": run_stress, "cold": run_cold, "solo": run_solo}[shard["kind"]](shard, mon, S, p)
+    {"explore": run_explore, "stress": run_stress, "cold": run_cold, "solo": run_solo, "coldsched": run_coldsched}[shard["kind"]](shard, mon, S, p)
     return mon.result(out_base)
 
 
@@ -345,6 +422,8 @@ def finish(m, tier, seed):
     for n in m["notes"]:
         for i, (dg, txt) in (n.get("outcomes") or {}).items():
             seen.setdefault(i, {}).setdefault(dg, (txt, n.get("shard")))
+        for i, dg, txt, where in n.get("outcome_list") or []:
+            seen.setdefault(i, {}).setdefault(dg, (txt, where))
     for i, v in sorted(seen.items()):
         if len(v) > 1:
             d = p[int(i)]
